@@ -216,6 +216,12 @@ func findPattern(v interface{}) string {
 	return ""
 }
 
+// BindSignature / BindParsed / SetStub configure the contract stubs of symbolic runs; natively the harness
+// uses real keys, signatures and parsing instead, so they do nothing.
+func BindSignature(sig, key, payload interface{}) {}
+func BindParsed(v interface{})                    {}
+func SetStub(name string, v interface{})          {}
+
 // DivFloor is floor(a/b) for b > 0 over mathematical integers.
 func DivFloor(a, b int64) int64 {
 	q := a / b
